@@ -2,6 +2,7 @@
 from __future__ import annotations
 
 import itertools
+import re
 import json
 import os
 from fractions import Fraction
@@ -77,6 +78,15 @@ def gen_column(rng, n, syms_list, rich=False):
     k = rng.randint(1, 9 if rich else 4)
     alpha = rng.sample(POOL, min(k, len(POOL)))
     weights = [1.0 / (i + 1) ** rng.choice([0.5, 1.0, 2.0]) for i in range(len(alpha))]
+    if rng.random() < 0.35:
+        # round 6: whitespace-padded variants of the column's own tokens and whitespace-only cells of different lengths are
+        # DISTINCT values (space, tab, U+00A0, U+3000); they sit next to the unpadded token in the same column
+        base = alpha[0]
+        pads = [base + " ", " " + base, base + "\t", base + "\u00a0", "\u3000" + base, " " + base + " ", base + "  ",
+                " ", "  ", "   ", "\u00a0", "\t"]
+        extra = rng.sample(pads, rng.randint(2, 5))
+        alpha = alpha + extra
+        weights = weights + [rng.choice([0.3, 0.6, 1.0]) for _ in extra]
     pm = rng.choice([0.0, 0.1, 0.3, 0.6])
     markers = [m for m in MARKERS if rng.random() < 0.5] or [""]
     col = []
@@ -246,7 +256,8 @@ def gen_pipeline_vw(rng):
     cols = ["label"] + ["g%d" % j for j in range(1, ncols)]
     columns = [[rng.choice(["0", "1"]) for _ in range(n)]]
     for _ in range(1, ncols):
-        c = [v.replace(" ", "_") for v in gen_column(rng, n, syms)]
+        # (the vw parser splits on blanks and strips every part: whitespace inside / around a value is C16's subject)
+        c = [re.sub(r"\s", "_", v) for v in gen_column(rng, n, syms)]
         columns.append(add_none(rng, c) if with_none else c)
     rows = [[columns[j][i] for j in range(ncols)] for i in range(n)]
     sp = [[k] * (n // k) for k in range(1, n + 1) if n % k == 0]
@@ -296,6 +307,16 @@ def fixed_cases():
         {"cols": ["f0", "f1"], "rows": [["NA", ""], ["-", ""], ["NA", ""], ["", ""]], "splits": [[4], [1, 3], [2, 2]],
          "thr": 5, "bound": 30000, "syms": "NA,-", "smallcap": None, "via": "direct", "family": "fixed"},
     ]
+    # round 6: values that differ only by leading / trailing whitespace are distinct values for every statistic (seeded C13-N:
+    # the sketch fed with str(v).strip()); whitespace-only cells are truthy
+    padded = ["tok", "tok ", " tok", "tok\t", "tok\u00a0", "\u3000tok", " ", "  ", "   ", "tok", " tok", ""]
+    for via in ("direct", "batch"):
+        out.append({"cols": ["padded", "label"], "rows": [[v, str(i % 2)] for i, v in enumerate(padded)],
+                    "splits": [[12], [5, 7], [3, 3, 3, 3], [1] * 12], "thr": 1, "bound": 30000, "syms": ",{}", "smallcap": None,
+                    "via": via, "family": "fixed"})
+    out.append({"cols": ["f0", "padded"], "rows": [[str(i % 2), v] for i, v in enumerate(padded)],
+                "splits": [[12], [6, 6], [4, 4, 4]], "thr": 1, "bound": 30000, "syms": ",{}", "smallcap": None,
+                "via": "pipeline", "family": "fixed"})
     # round 5, glue inside compute_batch_ranking: a declared-numeric column with sentinel missing symbols under a transformer
     # preset (seeded C13-L), and interaction columns whose constituents' value domains differ between batches (seeded C10-L)
     price = ["3", "-1", "", "-999", "2.5", "-1", "7.25", "-999", "3", None, "-1", "10"]
